@@ -9,6 +9,33 @@ BASE = 'urn:ietf:params:xml:ns:netconf:base:1.0'
 NOTIF = 'urn:ietf:params:xml:ns:netconf:notification:1.0'
 UNKNOWN_ID = 'urn:uuid:00000000-0000-0000-0000-00000000dead'
 
+# ---- hostile payloads (C14): correctly framed, not XML; {id} = message-id of the request received last
+HOSTILE = [
+    # text that looks like an error report inside garbage (a profile may turn it into an error for the outstanding requests)
+    '%%% not xml %%%<rpc-reply><rpc-error><error-severity>error</error-severity><error-message>boom</error-message></rpc-error></rpc-reply></hello>',
+    # a complete, correct-looking reply to an outstanding request behind garbage: must never be taken for that reply
+    'xx<rpc-reply xmlns="urn:ietf:params:xml:ns:netconf:base:1.0" message-id="{id}"><ok/></rpc-reply>',
+    # text a profile may try to repair and that is still not XML afterwards
+    'garbage routing-engine <ok/> <<<',
+    '\x01\x02 binary <rpc-reply><rpc-error><error-severity>warning</error-severity></rpc-error><rpc-error><error-severity>error</error-severity></rpc-error></rpc-reply> tail </hello',
+    '{"json": "<rpc-reply>x</rpc-reply></hello>"}',
+    '<<notification xmlns="urn:ietf:params:xml:ns:netconf:notification:1.0"><ev>n9</ev></notification>',
+]
+# ---- what follows a VALID root start tag (and some children) and makes the document not well-formed; {root} = root tag name
+BADBODY = ['<data><x>1</data></{root}>', '<x>a & b</x></{root}>', '<x>1 < 2</x></{root}>', '<x>1</x>', '<x>1</x></{root}x', '</{root}>trailing<',
+           '<x>&nbsp;</x></{root}>', '<x>\x01</x></{root}>', '<x a=1/></{root}>', '<x a="1" a="2"/></{root}>', '</{root}><second/>',
+           '<p:x/></{root}>', '<x><![CDATA[ open </x></{root}>', '<!-- c -- c --></{root}>', '']
+
+def wellformed(raw):
+    """independent reader (expat, not libxml2): is this text one well-formed XML document?"""
+    from xml.parsers import expat
+    try:
+        if isinstance(raw, str): raw = raw.encode('utf-8')
+        expat.ParserCreate(namespace_separator=' ').Parse(raw, True)
+        return True
+    except Exception:
+        return False
+
 class FakeSock:
     def __init__(self):
         self.inb = []; self.eof = False; self.err = False; self.out = bytearray(); self.closed = False
@@ -161,7 +188,10 @@ def make_session_class():
             return Session._dispatch_message(self, raw)
         def _dispatch_error(self, err):
             self._S.effect('errbcast', err)
-            return Session._dispatch_error(self, err)
+            try:
+                return Session._dispatch_error(self, err)
+            finally:
+                self._S.effect('errbcast_end')
     return LtsSession
 
 def reply_xml(mid, ok=True):
@@ -169,6 +199,14 @@ def reply_xml(mid, ok=True):
     return '<rpc-reply xmlns="%s"%s><ok/></rpc-reply>' % (BASE, a)
 def notif_xml(n):
     return '<notification xmlns="%s"><eventTime>2026-01-01T00:00:0%dZ</eventTime><ev>n%d</ev></notification>' % (NOTIF, n % 10, n)
+def notif_bad_xml(n, v):
+    """<notification> with a valid start tag (and event number n) whose body is not well-formed"""
+    return '<notification xmlns="%s"><eventTime>2026-01-01T00:00:0%dZ</eventTime><ev>n%d</ev>' % (NOTIF, n % 10, n) + BADBODY[v % len(BADBODY)].replace('{root}', 'notification')
+def reply_bad_xml(mid, v):
+    """<rpc-reply> for message-id mid with a valid start tag whose body is not well-formed"""
+    return '<rpc-reply xmlns="%s" message-id="%s"><data>' % (BASE, mid) + BADBODY[v % len(BADBODY)].replace('{root}', 'rpc-reply')
+def hostile_text(v, mid):
+    return HOSTILE[v % len(HOSTILE)].replace('{id}', mid or UNKNOWN_ID)
 def other_xml(mid):
     a = ' message-id="%s"' % mid if mid is not None else ''
     return '<frob xmlns="urn:example:x"%s/>' % a
@@ -266,7 +304,11 @@ class Scenario:
                             if rpc.event.is_set():
                                 if rpc.error: raise rpc.error
                                 m = re.search(r'message-id="([^"]+)"', rpc.reply.xml)
-                                outcomes[key] = ('reply', m.group(1) if m else None, rpc.id)
+                                try:                     # what an asynchronous caller gets when it looks at the reply
+                                    rpc.reply.parse(); view = 'parsed'
+                                except Exception as e:
+                                    view = 'parse-raises:' + type(e).__name__
+                                outcomes[key] = ('reply', m.group(1) if m else None, rpc.id, view)
                             else:
                                 outcomes[key] = ('exc', 'TimeoutExpiredError')
                         except Exception as e:
@@ -275,6 +317,7 @@ class Scenario:
             def ops_loop():
                 for oi, op in enumerate(ops):
                     key = (ci, oi)
+                    S.effect('opstart', key)
                     if op[0] in ('rpc', 'rpc_ff'):
                         sync = op[1] if op[0] == 'rpc' else False
                         if spec.get('reseed'):
@@ -295,7 +338,7 @@ class Scenario:
                             if not sync:
                                 pending_async.append((key, rpc)); continue
                             m = re.search(r'message-id="([^"]+)"', rpc.reply.xml)
-                            outcomes[key] = ('reply', m.group(1) if m else None, rpc.id)
+                            outcomes[key] = ('reply', m.group(1) if m else None, rpc.id, 'returned')
                         except Exception as e:
                             outcomes[key] = ('exc', type(e).__name__)
                         if rpc is not None:
@@ -311,24 +354,47 @@ class Scenario:
                             outcomes[key] = ('refused', type(e).__name__)
                     elif op[0] == 'await_disc':
                         S.point('await', enabled=lambda: not ses._connected)
+                    elif op[0] == 'await_srv':
+                        # until the server has performed its action number op[1] and the session thread has consumed it
+                        # (it sleeps in select() again, or has ended); also released when the server gave up
+                        def consumed(j=op[1]):
+                            w = S.threads['W']
+                            if w['done']:
+                                return True              # nobody will consume anything any more
+                            if not (srv_done[0] > j or S.threads['S']['done']):
+                                return False
+                            return not sock.inb and not sock.eof and not sock.err and w['label'] == 'select'
+                        S.point('await', enabled=consumed)
                     elif op[0] == 'close':
                         ses.close(); outcomes[key] = ('closed',)
                     elif op[0] == 'take':
                         from ncclient.manager import Manager          # the documented entry point (wrapper over the session's)
                         n = Manager(ses, dh, timeout=5).take_notification(op[1], 5 if op[1] else None)
                         S.effect('took', n is None, len(ses._notification_q.d))     # what was queued when it returned
-                        outcomes[key] = ('took', None if n is None else n.notification_xml)
+                        view = None
+                        if n is not None:
+                            try:
+                                view = str(n.notification_ele.tag)
+                            except Exception as e:
+                                view = 'raises:' + type(e).__name__
+                        outcomes[key] = ('took', None if n is None else n.notification_xml, view)
             return body
+        srv_done = [0]
+        dirty = [False]
+        self.sent_texts = []                 # (action index, kind, payload text) of what the server framed correctly
         def server():
-            for act in spec['server']:
+            for ai, act in enumerate(spec['server']):
+                srv_done[0] = ai
                 k = act[0]
-                if k in ('reply', 'dup', 'partial') or (k == 'other' and act[1] is not None):
+                if k in ('reply', 'dup', 'partial', 'reply_bad') or (k == 'other' and act[1] is not None):
                     idx = act[1]
                     S.point('srv', enabled=lambda idx=idx: idx < len(received()))
                     if idx >= len(received()):
                         return                      # abandoned at the end of the run
                     mid = received()[idx].decode()
                     x = reply_xml(mid) if k != 'other' else other_xml(mid)
+                    if k == 'reply_bad':
+                        x = reply_bad_xml(mid, act[2])
                     if k == 'partial':
                         # the beginning of a reply with non-ASCII text, cut inside a multi-byte character; what follows
                         # in the script (eof / err) loses the connection inside this message
@@ -342,25 +408,31 @@ class Scenario:
                     S.point('srv', enabled=lambda: len(received()) >= nreq); continue
                 else:
                     # the server speaks only after it has received a request (then the reply listener exists), except to close
-                    free = k in ('eof', 'err', 'notif')        # a notification needs no reply listener
+                    free = k in ('eof', 'err', 'notif', 'notif_bad')        # a notification needs no reply listener
                     S.point('srv', enabled=(None if free else (lambda: len(received()) >= 1)))
                     if not free and len(received()) < 1:
                         return
                     x = {'reply_noid': reply_xml(None), 'reply_unknown': reply_xml(UNKNOWN_ID),
-                         'notif': notif_xml(act[1]) if k == 'notif' else None, 'other': other_xml(None)}.get(k, '')
+                         'notif': notif_xml(act[1]) if k == 'notif' else None, 'other': other_xml(None),
+                         'notif_bad': notif_bad_xml(act[1], act[2]) if k == 'notif_bad' else None,
+                         'hostile': hostile_text(act[1], (received()[-1].decode() if received() else None)) if k == 'hostile' else None}.get(k, '')
                 if k == 'eof':
                     sock.eof = True
                 elif k == 'err':
                     sock.err = True
                 elif k == 'garbage':              # breaks RFC 6242 chunk framing (only meaningful under base 1.1)
                     sock.inb.append(b'\n#x1\n<a/>\n##\n' if base11 else b'garbage without delimiter ')
+                    dirty[0] = True               # 1.0: these octets become the beginning of the next message
                 elif k == 'nonxml':               # correctly framed, not XML
-                    sock.inb.append(frame(b'this is <<< not xml'))
+                    sock.inb.append(frame(b'this is <<< not xml')); dirty[0] = False
                 elif k == 'badutf8':              # correctly framed, not UTF-8
-                    sock.inb.append(frame(b'<a>\xff\xfe</a>'))
+                    sock.inb.append(frame(b'<a>\xff\xfe</a>')); dirty[0] = False
                 else:
                     sock.inb.append(frame(x.encode()))
+                    self.sent_texts.append((ai, 'merged' if dirty[0] else k, x))
+                    dirty[0] = False
                 S.effect('srv', act)
+            srv_done[0] = len(spec['server'])
         for ci, ops in enumerate(spec['clients']):
             S.spawn('C%d' % ci, client(ci, ops))
         S.spawn('S', server)
@@ -402,7 +474,7 @@ class Scenario:
         effs = self.S.effects[:self.n_effects]
         rid_of_rpc, rid_of_id, labels, reg = {}, {}, [], []
         cur = {}                                  # client thread -> rid of the request in progress
-        mode_err = False
+        mode_err = mode_soft = False
         client_closed = False
         def idn(mid):
             return 100 + rid_of_id[mid] if mid in rid_of_id else 7
@@ -432,17 +504,21 @@ class Scenario:
                 labels.append([5, rid_of_id.get(m.group(1), 99) if m else 99])
             elif k == 'dispatch':
                 raw = e[2]
+                fixed = None
                 if not self._parses(raw):
                     fixed = self.ses._device_handler.handle_raw_dispatch(raw)     # what the profile makes of it
                     if isinstance(fixed, str): raw = fixed
                 raw = re.sub(r'^<\?xml[^>]*\?>', '', raw)
                 m = re.search(r'message-id="([^"]+)"', raw)
-                if raw.startswith('<rpc-reply'):
-                    labels.append([6, 0, idn(m.group(1))] if m else [6, 1, 0])
-                elif raw.startswith('<notification'):
-                    labels.append([6, 2, notif_idx(raw)])
+                if isinstance(fixed, Exception):
+                    labels.append([6, 6, self.err_code(fixed)])      # not XML; the profile answers with an exception (SessionSoft.v)
                 elif not self._parses(raw):
                     labels.append([6, 5, 0])
+                elif raw.startswith('<rpc-reply'):
+                    labels.append([6, 0, idn(m.group(1))] if m else [6, 1, 0])
+                elif raw.startswith('<notification'):
+                    # the start tag is readable; the body is judged by an independent reader (SessionSoft.v XRecvBadNotif)
+                    labels.append([6, 2, notif_idx(raw)] if wellformed(raw) else [6, 7, notif_idx(raw)])
                 else:
                     labels.append([6, 3, idn(m.group(1))] if m else [6, 4, 0])
             elif k == 'nq.put':
@@ -455,6 +531,8 @@ class Scenario:
                     labels.append([15 if mode_err else 9, rid])
             elif k == 'tdel':
                 labels.append([10, idn(e[2])])
+            elif k == 'errbcast_end':
+                if mode_soft: mode_err = mode_soft = False      # the non-fatal broadcast is over: the worker goes back into its loop
             elif k == 'read' and e[2] == 'eof':
                 labels.append([11])
             elif k == 'read' and e[2] == 'data' and getattr(self, 'keep_reads', False):
@@ -480,7 +558,8 @@ class Scenario:
                 code = self.err_code(e[2])
                 prev = next((l for l in reversed(labels) if l[0] in (5, 6, 7, 8, 9, 10, 11, 12, 20)), None)
                 explained = prev is not None and (prev[0] in (11, 12, 20) or (prev[0] == 8 and prev[2] == 0) or
-                                                  (prev[0] == 6 and (prev[1] == 1 or (prev[1] == 4 and not self.qualify))))
+                                                  (prev[0] == 6 and (prev[1] in (1, 6, 7) or (prev[1] == 4 and not self.qualify))))
+                mode_soft = prev is not None and prev[0] == 6 and prev[1] == 6
                 if not explained and not client_closed:
                     labels.append([21, code])         # the exception came out of parser.parse (framing / decoding)
                 labels.append([19, code])
